@@ -1,3 +1,234 @@
+// verification hooks: re-export of module-private items (add-only, feature `verif`)
+#[cfg(feature = "verif")]
+#[allow(unused_imports)]
+pub mod verif_export {
+    pub mod aggregate {
+        pub use super::super::aggregate::*;
+    }
+    pub mod assemble_nullable {
+        pub use super::super::assemble_nullable::*;
+    }
+    pub mod binary_operator {
+        pub use super::super::binary_operator::*;
+    }
+    pub mod bit_unpack {
+        pub use super::super::bit_unpack::*;
+    }
+    pub mod bool_op {
+        pub use super::super::bool_op::*;
+    }
+    pub mod buffer_stream {
+        pub use super::super::buffer_stream::*;
+    }
+    pub mod collect {
+        pub use super::super::collect::*;
+    }
+    pub mod column_ops {
+        pub use super::super::column_ops::*;
+    }
+    pub mod combine_null_maps {
+        pub use super::super::combine_null_maps::*;
+    }
+    pub mod compact_nullable_nullable {
+        pub use super::super::compact_nullable_nullable::*;
+    }
+    pub mod compact_nullable {
+        pub use super::super::compact_nullable::*;
+    }
+    pub mod compact_with_nullable {
+        pub use super::super::compact_with_nullable::*;
+    }
+    pub mod compact {
+        pub use super::super::compact::*;
+    }
+    pub mod comparison_operators {
+        pub use super::super::comparison_operators::*;
+    }
+    pub mod constant {
+        pub use super::super::constant::*;
+    }
+    pub mod constant_expand {
+        pub use super::super::constant_expand::*;
+    }
+    pub mod constant_vec {
+        pub use super::super::constant_vec::*;
+    }
+    pub mod delta_decode {
+        pub use super::super::delta_decode::*;
+    }
+    pub mod dict_lookup {
+        pub use super::super::dict_lookup::*;
+    }
+    pub mod empty {
+        pub use super::super::empty::*;
+    }
+    pub mod encode_const {
+        pub use super::super::encode_const::*;
+    }
+    pub mod exists {
+        pub use super::super::exists::*;
+    }
+    pub mod filter {
+        pub use super::super::filter::*;
+    }
+    pub mod filter_nullable {
+        pub use super::super::filter_nullable::*;
+    }
+    pub mod functions {
+        pub use super::super::functions::*;
+    }
+    pub mod fuse_nulls {
+        pub use super::super::fuse_nulls::*;
+    }
+    pub mod get_null_map {
+        pub use super::super::get_null_map::*;
+    }
+    pub mod hashmap_grouping {
+        pub use super::super::hashmap_grouping::*;
+    }
+    pub mod hashmap_grouping_byte_slices {
+        pub use super::super::hashmap_grouping_byte_slices::*;
+    }
+    pub mod hashmap_grouping_val_rows {
+        pub use super::super::hashmap_grouping_val_rows::*;
+    }
+    pub mod identity {
+        pub use super::super::identity::*;
+    }
+    pub mod indices {
+        pub use super::super::indices::*;
+    }
+    pub mod is_null {
+        pub use super::super::is_null::*;
+    }
+    pub mod lz4_decode {
+        pub use super::super::lz4_decode::*;
+    }
+    pub mod make_nullable {
+        pub use super::super::make_nullable::*;
+    }
+    pub mod map_operator {
+        pub use super::super::map_operator::*;
+    }
+    pub mod merge {
+        pub use super::super::merge::*;
+    }
+    pub mod merge_aggregate {
+        pub use super::super::merge_aggregate::*;
+    }
+    pub mod merge_deduplicate {
+        pub use super::super::merge_deduplicate::*;
+    }
+    pub mod merge_deduplicate_partitioned {
+        pub use super::super::merge_deduplicate_partitioned::*;
+    }
+    pub mod merge_drop {
+        pub use super::super::merge_drop::*;
+    }
+    pub mod merge_keep {
+        pub use super::super::merge_keep::*;
+    }
+    pub mod merge_partitioned {
+        pub use super::super::merge_partitioned::*;
+    }
+    pub mod nonzero_compact {
+        pub use super::super::nonzero_compact::*;
+    }
+    pub mod nonzero_indices {
+        pub use super::super::nonzero_indices::*;
+    }
+    pub mod null_to_i64 {
+        pub use super::super::null_to_i64::*;
+    }
+    pub mod null_to_val {
+        pub use super::super::null_to_val::*;
+    }
+    pub mod null_to_vec {
+        pub use super::super::null_to_vec::*;
+    }
+    pub mod null_vec {
+        pub use super::super::null_vec::*;
+    }
+    pub mod null_vec_like {
+        pub use super::super::null_vec_like::*;
+    }
+    pub mod numeric_operators {
+        pub use super::super::numeric_operators::*;
+    }
+    pub mod parameterized_vec_vec_int_op {
+        pub use super::super::parameterized_vec_vec_int_op::*;
+    }
+    pub mod partition {
+        pub use super::super::partition::*;
+    }
+    pub mod pco_decode {
+        pub use super::super::pco_decode::*;
+    }
+    pub mod propagate_nullability {
+        pub use super::super::propagate_nullability::*;
+    }
+    pub mod scalar_f64 {
+        pub use super::super::scalar_f64::*;
+    }
+    pub mod scalar_i64 {
+        pub use super::super::scalar_i64::*;
+    }
+    pub mod scalar_i64_to_scalar_f64 {
+        pub use super::super::scalar_i64_to_scalar_f64::*;
+    }
+    pub mod scalar_str {
+        pub use super::super::scalar_str::*;
+    }
+    pub mod select {
+        pub use super::super::select::*;
+    }
+    pub mod slice_pack {
+        pub use super::super::slice_pack::*;
+    }
+    pub mod slice_unpack {
+        pub use super::super::slice_unpack::*;
+    }
+    pub mod sort_by {
+        pub use super::super::sort_by::*;
+    }
+    pub mod sort_by_slices {
+        pub use super::super::sort_by_slices::*;
+    }
+    pub mod sort_by_val_rows {
+        pub use super::super::sort_by_val_rows::*;
+    }
+    pub mod stream_buffer {
+        pub use super::super::stream_buffer::*;
+    }
+    pub mod subpartition {
+        pub use super::super::subpartition::*;
+    }
+    pub mod to_val {
+        pub use super::super::to_val::*;
+    }
+    pub mod top_n {
+        pub use super::super::top_n::*;
+    }
+    pub mod type_conversion {
+        pub use super::super::type_conversion::*;
+    }
+    pub mod unhexpack_strings {
+        pub use super::super::unhexpack_strings::*;
+    }
+    pub mod unpack_strings {
+        pub use super::super::unpack_strings::*;
+    }
+    pub mod val_rows_pack {
+        pub use super::super::val_rows_pack::*;
+    }
+    pub mod val_rows_unpack {
+        pub use super::super::val_rows_unpack::*;
+    }
+    pub mod aggregator {
+        pub use super::super::aggregator::*;
+    }
+}
+
 pub use self::aggregator::*;
 pub use self::comparator::*;
 pub use self::vector_operator::*;
